@@ -410,6 +410,8 @@ class HistogramND(HistogramBase):
             values_array = values_array[array_mask]
             if weights is not None:
                 weights = weights[array_mask]
+        if values_array.shape[0] == 0:
+            return  # Nothing to add (and perhaps no bins to add it to)
         if weights is not None:
             self._coerce_dtype(weights.dtype)
         for i, binning in enumerate(self._binnings):
